@@ -82,9 +82,13 @@ def oracle_case(real_types, summary, code, uses, type_mod):
     """the property on the real code: API answers vs parsed output"""
     f = []
     items = {it["name"]: it for it in summary["items"]}
+    # two generated items of ONE name (the name-collision findings of C01 / C08 / C16): "the item the reported name resolves to"
+    # is not defined for that name, so it is not judged here
+    dup_names = {it["name"] for it in summary["items"] if sum(1 for o in summary["items"] if o["name"] == it["name"]) > 1}
     for t in real_types:
         if t["kind"] not in ("struct", "enum", "newtype"): continue
         nm = ns(t["name"])
+        if nm in dup_names: continue
         it = items.get(nm)
         if it is None: f.append((nm, "reported name resolves to no generated item")); continue
         if t["kind"] == "struct":
